@@ -32,14 +32,14 @@ LEVEL = 'model_checking'
 
 SEGS = ('~', '\n', '!', '\x1c', '{')
 ELES = ('*', '|', '+', '\x1d')       # incl. a control-character separator; '*' may also be the COMPONENT separator when the element separator is another character
-SUBS = (':', '>', '\\', '%', '*')          # % and { are format / template characters of the implementation language
+SUBS = (':', '>', '\\', '%', '*', '<')          # % and { are format / template characters of the implementation language
 EOLS = ('', '\n', '\r\n', '\r')
 BASE = ('~', '*', ':', '')
 FACTOR = ('seg', 'ele', 'sub', 'eol')
 NAMES = {'': 'none', '\n': 'LF', '\r\n': 'CRLF', '\r': 'CR', '\x1c': 'FS', '\x1d': 'GS', '\\': 'backslash'}
 ENVELOPE = ('ISA', 'GS', 'ST', 'SE', 'GE', 'IEA', 'TA1')
 MUT_OPS = ('delete', 'duplicate', 'swap', 'retag-ZZZ', 'extra-elements', 'extra-components')      # from corpus.mutations
-OWN_OPS = ('trailing-element', 'trailing-component', 'lone-separator', 'empty-piece')                                            # made here, on the matrix
+OWN_OPS = ('trailing-element', 'trailing-component', 'lone-separator', 'control-char', 'empty-piece')                                            # made here, on the matrix
 CHARSET_B_MAPS = ('834.4010.X095.A1.xml', '837.4010.X098.A1.xml', '835.5010.X221.A1.xml', '999.5010.xml')
 
 
@@ -295,6 +295,11 @@ def mutants(text, thorough):
         if eles:
             for k in sorted(set([0, len(eles) - 1])):
                 yield 'lone-separator@%d:%s%02d' % (i, sid, k + 1), base[:i] + [[sid, [list(c) for c in eles[:k]] + [['', '']] + [list(c) for c in eles[k + 1:]]]] + base[i + 1:]
+        # a control character inside a value: the validator names it with a placeholder (<HT>) in the offending value, which
+        # must read the same whatever the delimiters are (also when < or > is one of them)
+        if eles:
+            k = len(eles) - 1
+            yield 'control-char@%d:%s%02d' % (i, sid, k + 1), base[:i] + [[sid, [list(c) for c in eles[:k]] + [['A\tB']]]] + base[i + 1:]
         # an empty piece (a doubled terminator) after the segment: not a segment in any encoding, with or without line breaks
         yield 'empty-piece@%d:%s' % (i, sid), base[:i + 1] + [['', []]] + base[i + 1:]
 
